@@ -161,7 +161,7 @@ Definition key_shape_ok : bool :=
   match G.key_shape with
   | [a; b; c] => String.eqb a "OracleAttestationKey" && String.eqb b "UInt64Bytes($nonce)" && String.eqb c "$hash"
   | _ => false
-  end && String.eqb G.store_prefix "[]byte($chain)".
+  end && String.eqb G.store_prefix "[]byte($chain)" && G.attest_stores_hashed_claim.
 
 (** [K] is the constant OracleAttestationKey (any byte string). *)
 Definition att_key (K : text) (c : claim) : text := chain_of c ++ K ++ be64 (nonce_of c) ++ claim_hash c.
